@@ -1,5 +1,5 @@
 (* C15 — Formatter event protocol well formed; JSON/plain/progress reports mirror the model. *)
-From BV Require Import Base Status Rollup Runner RunnerSteps Formatters FormattersProofs RunnerEq.
+From BV Require Import Base Status Rollup Runner RunnerSteps Formatters FormattersProofs Protocol RunnerEq.
 From BVGen Require Import StatusTable.
 
 (* every executed step: exactly one match and one result, the result carrying its status *)
@@ -21,6 +21,30 @@ Theorem scenario_event_stream_shape :
       (c_expr cfg eff = false -> n = 0).
 Proof. exact scenario_fmt_shape. Qed.
 Print Assumptions scenario_event_stream_shape.
+
+(* the whole run, for every program, configuration, selection and fault set: the stream every
+   formatter receives is a word of the protocol automaton (Protocol.v) -
+     run ::= (uri [FFeature [background] (rule | scenario)* eof])* close
+   where a rule is FRuleEv [background] scenario*, a scenario announces its steps and then
+   reports (match, result) pairs that name the announced steps in order, at most one pair per
+   step, and there is exactly one close, at the very end *)
+Theorem every_run_stream_is_a_word_of_the_protocol :
+  forall cfg fs rs verdict ab evs,
+    run_model cfg fs = (rs, verdict, ab, evs) -> protocol_ok (fmt_of evs) = true.
+Proof. exact run_stream_follows_the_protocol. Qed.
+Print Assumptions every_run_stream_is_a_word_of_the_protocol.
+
+(* the automaton is not trivial: it rejects a result for the wrong step, a second close, a
+   scenario outside a feature, a result without match *)
+Example the_protocol_rejects_malformed_streams :
+  protocol_ok [FUri 1; FFeature 1; FScenario 2; FStepAnn 3; FStepAnn 4; FMatch true; FResult 3 passed; FEof; FClose] = true /\
+  protocol_ok [FUri 1; FFeature 1; FScenario 2; FStepAnn 3; FStepAnn 4; FMatch true; FResult 4 passed; FEof; FClose] = false /\
+  protocol_ok [FUri 1; FFeature 1; FScenario 2; FStepAnn 3; FResult 3 passed; FEof; FClose] = false /\
+  protocol_ok [FUri 1; FScenario 2; FClose] = false /\
+  protocol_ok [FUri 1; FFeature 1; FEof; FClose; FClose] = false /\
+  protocol_ok [FUri 1; FFeature 1; FScenario 2; FStepAnn 3; FMatch true; FEof; FClose] = false /\
+  protocol_ok [FUri 1; FFeature 1; FEof] = false.
+Proof. vm_compute. repeat split; reflexivity. Qed.
 
 (* plain / progress: over such a stream the step queue never underflows and shows each
    processed step exactly once, the popped step being the reported one, with its final status *)
